@@ -10,6 +10,8 @@ import os
 import subprocess
 import sys
 
+import numpy
+
 from pgverif import gen
 from pgverif import models as GM
 
@@ -182,6 +184,30 @@ def _run_point(case, ctx):
     ctx.count("same_pairs", "after-reads")
     if ref.iso_id != before:
         ctx.violation("identity/changes-after-reads", "identifier changed after read-only calls", spec=spec)
+    # ... also when the reads convert through the material's properties (given as integers, as read from a file or typed by a user)
+    s3 = copy.deepcopy(spec)
+    mname = s3["material"]["name"] if isinstance(s3["material"], dict) else s3["material"]
+    s3["material"] = {"name": mname + "-int", "density": 2, "molar_mass": 150}
+    try:
+        tw = gen.build_point(s3, "df")
+        twin_id = gen.build_point(copy.deepcopy(s3), "df").iso_id
+        before = tw.iso_id
+        for kw in ({"material_basis": "volume", "material_unit": "cm3"}, {"material_basis": "molar", "material_unit": "mol"}, {"loading_basis": "mass", "loading_unit": "mg"},
+                   {"loading_basis": "fraction"}, {"pressure_mode": "relative"}):
+            try:
+                with numpy.errstate(all="ignore"):
+                    tw.pressure(branch="ads", **kw) if "pressure_mode" in kw else tw.loading(branch="ads", **kw)
+                    if spec["branch"].count(0) >= 2 and "pressure_mode" not in kw:
+                        tw.loading_at((lo + hi) / 2, **kw)
+            except Exception:
+                ctx.count("read_only_calls", "raised")
+        tw.material.density, tw.material.molar_mass, tw.adsorbate.molar_mass()
+        ctx.case([_digest(spec), "same", "after-converting-reads"])
+        ctx.count("same_pairs", "after-converting-reads")
+        if tw.iso_id != before or tw.iso_id != twin_id or tw.iso_id != gen.build_point(copy.deepcopy(s3), "df").iso_id:
+            ctx.violation("identity/changes-after-reads", "identifier changed after read-only calls in other units / bases", material=s3["material"], before=before, after=tw.iso_id)
+    except Exception as exc:
+        ctx.error("c05: converting reads", exc)
     # ---------------- minimally different content
     base = gen.build_point(spec, "df")
 
